@@ -25,8 +25,13 @@ import (
 	"encoding/json"
 	"flag"
 	"fmt"
+	"hash/adler32"
+	"hash/crc32"
+	"hash/fnv"
+	"io"
 	"os"
 	"runtime"
+	"runtime/debug"
 	"strconv"
 	"strings"
 	"sync"
@@ -37,6 +42,7 @@ import (
 	"github.com/99designs/gqlgen/graphql/handler/lru"
 	"github.com/vektah/gqlparser/v2"
 	"github.com/vektah/gqlparser/v2/ast"
+	"github.com/vektah/gqlparser/v2/parser"
 	"verifharness/internal/rng"
 )
 
@@ -46,17 +52,37 @@ type text struct {
 	s     string
 	sha   string
 	valid bool
+	fam   int    // layout family (0 = none): members differ only in whitespace / ignored tokens / letter case
+	sig   string // signature of the parsed document (first field: alias, name, first argument), "" = does not parse
 }
 
 var texts = []text{
-	{s: "{a}", valid: true},
+	{s: "{a}", valid: true, fam: 1},
 	{s: "{b}", valid: true},
 	{s: "{c}", valid: true},
 	{s: "{", valid: false},                      // parse error
 	{s: "{zz}", valid: false},                   // validation error
-	{s: " { a }", valid: true},                  // same meaning as text 0, different text and hash
+	{s: " { a }", valid: true, fam: 1},          // same meaning as text 0, different text and hash
 	{s: "fragment F on Query{a}", valid: false}, // parses, no operation
+	// layout family of `{ a }`: the same document as bytes that differ only in ignored tokens. Text 7 is the
+	// whitespace-squeezed form (single blanks, no leading/trailing blank) of 5, 8, 9, 10; every member has its
+	// own SHA-256, and a member sent with a sibling's hash is a mismatch like any other
+	{s: "{ a }", valid: true, fam: 1},
+	{s: "{  a  }", valid: true, fam: 1},
+	{s: "{\ta\n}", valid: true, fam: 1},
+	{s: "{ a }\n", valid: true, fam: 1},
+	{s: "{ a, }", valid: true, fam: 1},
+	{s: "{ a } # c", valid: true, fam: 1},
+	{s: "\ufeff{ a }", valid: true, fam: 1},
+	{s: "{ A }", valid: false, fam: 1}, // case-folds to 7; no such field
+	// two documents with DIFFERENT meaning that differ only in the blanks inside a string literal
+	{s: `{ echo(s: "x y") }`, valid: true, fam: 2},
+	{s: `{ echo(s: "x  y") }`, valid: true, fam: 2},
+	{s: "{ echo(s: \"x y\") }\r\n", valid: true, fam: 2},
 }
+
+// nStatic: texts below this index are fixed; weak-key collision pairs found at start-up are appended.
+var nStatic int
 
 var textID = map[string]int{}
 var shaID = map[string]int{}
@@ -67,11 +93,63 @@ func sha(s string) string {
 }
 
 func init() {
+	nStatic = len(texts)
 	for i := range texts {
-		texts[i].sha = sha(texts[i].s)
-		textID[texts[i].s] = i
-		shaID[texts[i].sha] = i
+		indexText(i)
 	}
+}
+
+func indexText(i int) {
+	texts[i].sha = sha(texts[i].s)
+	textID[texts[i].s] = i
+	shaID[texts[i].sha] = i
+	if doc, err := parser.ParseQuery(&ast.Source{Input: texts[i].s}); err == nil {
+		texts[i].sig = docSig(doc)
+	}
+	if texts[i].sig != "" {
+		if _, ok := sigID[texts[i].sig]; !ok {
+			sigID[texts[i].sig] = i
+		}
+	}
+}
+
+var sigID = map[string]int{}
+
+// docSig identifies WHICH document is being executed independently of OperationContext.RawQuery: alias, name
+// and first argument of the first field of the first operation.
+func docSig(doc *ast.QueryDocument) string {
+	if doc == nil || len(doc.Operations) == 0 || len(doc.Operations[0].SelectionSet) == 0 {
+		return ""
+	}
+	f, ok := doc.Operations[0].SelectionSet[0].(*ast.Field)
+	if !ok {
+		return ""
+	}
+	s := f.Alias + ":" + f.Name
+	if len(f.Arguments) > 0 && f.Arguments[0].Value != nil {
+		s += "(" + f.Arguments[0].Value.Raw + ")"
+	}
+	return s
+}
+
+// executed: what Exec saw - the OperationContext's RawQuery and the signature of its parsed document
+type executed struct{ raw, sig string }
+
+func seenByExec(opCtx *graphql.OperationContext) executed {
+	return executed{opCtx.RawQuery, docSig(opCtx.Doc)}
+}
+
+// text names the text whose DOCUMENT Exec was invoked on: the text APQ left in rawParams.Query (`post`) when
+// the executed document is that text's document; else the first text of the table with that document (so
+// that a document executed under another text's name is visible to the Spec); else a marker.
+func (x executed) text(post string) string {
+	if i, ok := textID[post]; ok && texts[i].sig == x.sig {
+		return post
+	}
+	if i, ok := sigID[x.sig]; ok && x.sig != "" {
+		return texts[i].s
+	}
+	return "\x00doc:" + x.sig
 }
 
 func tid(s string) string {
@@ -93,16 +171,16 @@ func halias(h string) string {
 
 // ---------------------------------------------------------------- mock schema + recording cache
 
-var schema = gqlparser.MustLoadSchema(&ast.Source{Input: "type Query { a: String b: String c: String }"})
+var schema = gqlparser.MustLoadSchema(&ast.Source{Input: "type Query { a: String b: String c: String echo(s: String): String }"})
 
-type mockES struct{ executed []string }
+type mockES struct{ executed []executed }
 
 func (m *mockES) Schema() *ast.Schema { return schema }
 func (m *mockES) Complexity(ctx context.Context, typeName, fieldName string, childComplexity int, args map[string]any) (int, bool) {
 	return 0, false
 }
 func (m *mockES) Exec(ctx context.Context) graphql.ResponseHandler {
-	m.executed = append(m.executed, graphql.GetOperationContext(ctx).RawQuery)
+	m.executed = append(m.executed, seenByExec(graphql.GetOperationContext(ctx)))
 	return graphql.OneShot(&graphql.Response{Data: json.RawMessage(`{}`)})
 }
 
@@ -139,7 +217,22 @@ func newEnv() *env {
 	return e
 }
 
+// cache kind grammar: <map|no|lruN>[+q][@http]   +q = a parsed-document cache is configured on the executor,
+// @http = the history is run through handler.Server and its POST / GET transports (http.go)
+func baseKind(kind string) (base string, qcache, http bool) {
+	if strings.HasSuffix(kind, "@http") {
+		http = true
+		kind = strings.TrimSuffix(kind, "@http")
+	}
+	if strings.HasSuffix(kind, "+q") {
+		qcache = true
+		kind = strings.TrimSuffix(kind, "+q")
+	}
+	return kind, qcache, http
+}
+
 func newCache(kind string) graphql.Cache[string] {
+	kind, _, _ = baseKind(kind)
 	switch {
 	case kind == "map":
 		return graphql.MapCache[string]{}
@@ -156,10 +249,24 @@ func newCache(kind string) graphql.Cache[string] {
 
 type req struct {
 	q     int  // text id, -1 = empty
-	ext   byte // 'a' 'm' 'd'
+	ext   byte // 'a' 'm' 'd'; 'b' = a body the transport cannot decode (token !/b/<fault>), @http histories only
 	ver   int64
 	hash  string // concrete hash string (for 'd')
 	shape string
+	// @http histories only
+	get bool   // carried by the GET transport (shape suffix @g); default POST application/json
+	par string // "" | p1 p2 | q1 q2: member of a pair of requests in flight at once (shape suffix ~p1 …)
+}
+
+func (r req) suffix() string {
+	s := ""
+	if r.get {
+		s += "@g"
+	}
+	if r.par != "" {
+		s += "~" + r.par
+	}
+	return s
 }
 
 func (r req) token() string {
@@ -169,11 +276,13 @@ func (r req) token() string {
 	}
 	switch r.ext {
 	case 'a':
-		return q + "/a/" + r.shape
+		return q + "/a/" + r.shape + r.suffix()
 	case 'm':
-		return q + "/m/" + r.shape
+		return q + "/m/" + r.shape + r.suffix()
+	case 'b':
+		return "!/b/" + r.shape + r.suffix()
 	}
-	return fmt.Sprintf("%s/%d,%s/%s", q, r.ver, halias(r.hash), r.shape)
+	return fmt.Sprintf("%s/%d,%s/%s", q, r.ver, halias(r.hash), r.shape+r.suffix())
 }
 
 func parseToken(tok string) (req, error) {
@@ -182,6 +291,26 @@ func parseToken(tok string) (req, error) {
 		return req{}, fmt.Errorf("bad token %q", tok)
 	}
 	r := req{q: -1, shape: p[2]}
+	if i := strings.Index(r.shape, "~"); i >= 0 {
+		r.par = r.shape[i+1:]
+		r.shape = r.shape[:i]
+		switch r.par {
+		case "p1", "p2", "q1", "q2":
+		default:
+			return r, fmt.Errorf("bad pair marker in %q", tok)
+		}
+	}
+	if strings.HasSuffix(r.shape, "@g") {
+		r.get = true
+		r.shape = strings.TrimSuffix(r.shape, "@g")
+	}
+	if p[0] == "!" {
+		if p[1] != "b" {
+			return r, fmt.Errorf("bad fault token %q", tok)
+		}
+		r.ext = 'b'
+		return r, nil
+	}
 	if p[0] != "-" {
 		n, err := strconv.Atoi(p[0])
 		if err != nil || n < 0 || n >= len(texts) {
@@ -318,7 +447,7 @@ func (e *env) do(r req) (tok string) {
 	func() {
 		defer func() {
 			if x := recover(); x != nil {
-				class = fmt.Sprintf("panic:%v", x)
+				class = "panic:" + strings.NewReplacer(" ", "_", "\t", "_", "|", "_", "\n", "_").Replace(fmt.Sprint(x))
 			}
 		}()
 		ctx := graphql.StartOperationTrace(context.Background())
@@ -357,7 +486,7 @@ func (e *env) do(r req) (tok string) {
 	}()
 	x := "-"
 	if len(e.es.executed) == 1 {
-		x = tid(e.es.executed[0])
+		x = tid(e.es.executed[0].text(p.Query))
 	} else if len(e.es.executed) > 1 {
 		x = "multi"
 	}
@@ -385,8 +514,17 @@ func candidates(h []req) []string {
 }
 
 func (e *env) runHistory(kind string, h []req) string {
+	_, qc, viaHTTP := baseKind(kind)
+	if viaHTTP {
+		return runHTTPHistory(kind, h)
+	}
 	inner := newCache(kind)
 	e.rec.inner = inner
+	if qc {
+		e.ex.SetQueryCache(graphql.MapCache[*ast.QueryDocument]{})
+	} else {
+		e.ex.SetQueryCache(graphql.NoCache[*ast.QueryDocument]{})
+	}
 	toks := make([]string, len(h))
 	obs := make([]string, len(h))
 	for i, r := range h {
@@ -513,7 +651,12 @@ func randReq(r *rng.R, nt int) req {
 		return req{q: -1, ext: 'd', ver: 1, hash: own, shape: shape}
 	case c < 62: // text only
 		return req{q: t, ext: 'a', shape: absShapes[r.Below(len(absShapes))]}
-	case c < 72: // text with another text's hash
+	case c < 67: // text with another text's hash
+		return req{q: t, ext: 'd', ver: 1, hash: texts[r.Below(nt)].sha, shape: shape}
+	case c < 72: // text with the hash of a layout sibling (same document up to whitespace / ignored tokens / case)
+		if sib := siblings(t, nt); len(sib) > 0 {
+			return req{q: t, ext: 'd', ver: 1, hash: texts[sib[r.Below(len(sib))]].sha, shape: shape}
+		}
 		return req{q: t, ext: 'd', ver: 1, hash: texts[r.Below(nt)].sha, shape: shape}
 	case c < 78: // text with a near-miss / garbage hash
 		l := literalHashes(own)
@@ -564,12 +707,26 @@ func randReq(r *rng.R, nt int) req {
 	}
 }
 
+// siblings: the other members of t's layout family among the first nt texts
+func siblings(t, nt int) []int {
+	var l []int
+	if texts[t].fam == 0 {
+		return nil
+	}
+	for i := 0; i < nt && i < nStatic; i++ {
+		if i != t && texts[i].fam == texts[t].fam {
+			l = append(l, i)
+		}
+	}
+	return l
+}
+
 func random(w *bufio.Writer, r *rng.R, n int) {
-	kinds := []string{"lru1", "lru2", "lru3", "lru2", "lru1", "map", "lru4", "no"}
+	kinds := []string{"lru1", "lru2", "lru3", "lru2+q", "lru1", "map", "lru4", "no", "map+q", "lru3+q"}
 	e := newEnv()
 	for i := 0; i < n; i++ {
 		kind := kinds[r.Below(len(kinds))]
-		nt := 3 + r.Below(len(texts)-2)
+		nt := 3 + r.Below(nStatic-2)
 		L := 8 + r.Below(40)
 		h := make([]req, L)
 		for j := range h {
@@ -625,6 +782,127 @@ func runDirected(w *bufio.Writer) error {
 	return nil
 }
 
+// runCorpus: the directed histories kept in corpus/C15/histories.txt (`<cache kind>|<tokens>`, // comments);
+// http selects the @http ones, otherwise the ones handed to the executor directly
+func runCorpus(w *bufio.Writer, path string, http bool) error {
+	if path == "" {
+		return nil
+	}
+	b, err := os.ReadFile(path)
+	if err != nil {
+		return err
+	}
+	e := newEnv()
+	for _, l := range strings.Split(string(b), "\n") {
+		l = strings.TrimSpace(l)
+		if l == "" || strings.HasPrefix(l, "//") {
+			continue
+		}
+		kv := strings.SplitN(l, "|", 2)
+		if _, _, h := baseKind(kv[0]); h != http {
+			continue
+		}
+		if err := runSpec(w, e, l); err != nil {
+			return fmt.Errorf("%s: %v", path, err)
+		}
+	}
+	return nil
+}
+
+// ---------------------------------------------------------------- weak-key collisions
+//
+// Pairs of valid texts whose SHA-256 hex strings - the cache KEYS - agree under a lossy transformation a cache
+// might apply to its keys: common 32-bit string digests and 32-bit truncations. Found by birthday search over
+// the alias texts `{ k<i>: a }` (about 10^5 candidates per digest), appended to the text table.
+
+type weakDigest struct {
+	name string
+	f    func(string) uint32
+}
+
+var weakDigests = []weakDigest{
+	{"fnv32a", func(s string) uint32 { h := fnv.New32a(); h.Write([]byte(s)); return h.Sum32() }},
+	{"fnv32", func(s string) uint32 { h := fnv.New32(); h.Write([]byte(s)); return h.Sum32() }},
+	{"crc32", func(s string) uint32 { return crc32.ChecksumIEEE([]byte(s)) }},
+	{"adler32", func(s string) uint32 { return adler32.Checksum([]byte(s)) }},
+	{"prefix8", func(s string) uint32 { n, _ := strconv.ParseUint(s[:8], 16, 32); return uint32(n) }},
+	{"suffix8", func(s string) uint32 { n, _ := strconv.ParseUint(s[len(s)-8:], 16, 32); return uint32(n) }},
+}
+
+var weakPairs [][2]int // text ids
+var weakNames []string
+
+func findWeakPairs() {
+	if weakPairs != nil {
+		return
+	}
+	seen := make([]map[uint32]int32, len(weakDigests))
+	for i := range seen {
+		seen[i] = map[uint32]int32{}
+	}
+	found := make([][2]int32, len(weakDigests))
+	missing := len(weakDigests)
+	for i := int32(0); missing > 0 && i < 3000000; i++ {
+		h := sha("{ k" + strconv.Itoa(int(i)) + ": a }")
+		for d := range weakDigests {
+			if found[d][1] != 0 {
+				continue
+			}
+			k := weakDigests[d].f(h)
+			if j, ok := seen[d][k]; ok {
+				found[d] = [2]int32{j, i}
+				missing--
+				seen[d] = nil
+			} else {
+				seen[d][k] = i
+			}
+		}
+	}
+	for d := range weakDigests {
+		if found[d][1] == 0 {
+			continue
+		}
+		var ids [2]int
+		for k := 0; k < 2; k++ {
+			s := "{ k" + strconv.Itoa(int(found[d][k])) + ": a }"
+			id, ok := textID[s]
+			if !ok {
+				texts = append(texts, text{s: s, valid: true})
+				id = len(texts) - 1
+				indexText(id)
+			}
+			ids[k] = id
+		}
+		weakPairs = append(weakPairs, ids)
+		weakNames = append(weakNames, weakDigests[d].name)
+	}
+}
+
+// weakHistories: register both texts of a pair, resolve both; resolve a hash whose partner alone was registered
+func weakHistories(kinds []string) []string {
+	var l []string
+	for _, p := range weakPairs {
+		a, b := strconv.Itoa(p[0]), strconv.Itoa(p[1])
+		for _, k := range kinds {
+			sfx := "f64"
+			l = append(l,
+				fmt.Sprintf("%s|%s/1,#%s/%s %s/1,#%s/%s -/1,#%s/%s -/1,#%s/%s", k, a, a, sfx, b, b, sfx, a, sfx, b, sfx),
+				fmt.Sprintf("%s|%s/1,#%s/%s -/1,#%s/%s %s/1,#%s/%s -/1,#%s/%s", k, b, b, sfx, a, sfx, a, b, sfx, a, sfx))
+		}
+	}
+	return l
+}
+
+func runWeak(w *bufio.Writer, kinds []string) error {
+	e := newEnv()
+	for _, d := range weakHistories(kinds) {
+		if err := runSpec(w, e, d); err != nil {
+			return err
+		}
+	}
+	return nil
+}
+
 func runSpec(w *bufio.Writer, e *env, d string) error {
 	kv := strings.SplitN(d, "|", 2)
 	if len(kv) != 2 {
@@ -642,9 +920,35 @@ func runSpec(w *bufio.Writer, e *env, d string) error {
 	if concrete {
 		// the concrete requests, for a human reading a replay file
 		var l []map[string]any
+		_, _, viaHTTP := baseKind(kv[0])
 		for _, r := range h {
+			if r.ext == 'b' {
+				b, _ := faultBody(r.shape)
+				l = append(l, map[string]any{"http": "POST application/json", "body": b})
+				continue
+			}
 			if p, err := r.params(); err == nil {
-				l = append(l, map[string]any{"query": p.Query, "extensions": p.Extensions})
+				m := map[string]any{"query": p.Query, "extensions": p.Extensions}
+				if viaHTTP {
+					m["http"] = "POST application/json"
+					if r.get {
+						m["http"] = "GET"
+					}
+					if hr, err := r.httpRequest(); err == nil && !r.get {
+						b, _ := io.ReadAll(hr.Body)
+						m["body"] = string(b)
+					} else if err == nil {
+						m["url"] = hr.URL.String()
+					}
+					if r.par != "" {
+						m["in_flight_at_once"] = map[string]string{
+							"p1": "with the next request; decoded first, passes APQ first",
+							"p2": "with the previous request; decoded second, passes APQ second",
+							"q1": "with the next request; decoded second, passes APQ first",
+							"q2": "with the previous request; decoded first, passes APQ second"}[r.par]
+					}
+				}
+				l = append(l, m)
 			}
 		}
 		b, _ := json.Marshal(l)
@@ -664,9 +968,18 @@ func main() {
 	prefix := flag.String("prefix", "", "exh: comma-separated alphabet indices the histories start with")
 	n := flag.Int("n", 0, "number of random histories (0 = tier default)")
 	replay := flag.String("replay", "", "run one history spec `<cache>|<tokens>` and exit")
+	corpus := flag.String("corpus", "", "corpus/C15/histories.txt")
 	flag.Parse()
 	w := bufio.NewWriterSize(os.Stdout, 1<<20)
 	defer w.Flush()
+	if *mode == "http" || strings.Contains(strings.SplitN(*replay, "|", 2)[0], "@http") {
+		// one P = one sync.Pool shard, no collections except the two before each history (http.go)
+		runtime.GOMAXPROCS(1)
+		debug.SetGCPercent(-1)
+	}
+	if *replay != "" || *mode == "all" || *mode == "http" || *mode == "weak" {
+		findWeakPairs()
+	}
 	for i, t := range texts {
 		v := 0
 		if t.valid {
@@ -715,8 +1028,51 @@ func main() {
 			pre = append(pre, n)
 		}
 		exhaustive(w, *kind, *L, pre)
+	case "weak":
+		if err := runWeak(w, []string{"map", "lru2", "lru4", "lru2+q"}); err != nil {
+			w.Flush()
+			fmt.Fprintln(os.Stderr, err)
+			os.Exit(2)
+		}
+	case "http":
+		// histories carried over HTTP (POST with pooled params, GET), with undecodable bodies and pairs of
+		// requests in flight at once
+		err := runCorpus(w, *corpus, true)
+		if err == nil {
+			err = runWeak(w, []string{"lru2@http"})
+		}
+		if err != nil {
+			w.Flush()
+			fmt.Fprintln(os.Stderr, err)
+			os.Exit(2)
+		}
+		for l := 0; l <= 3; l++ {
+			httpExhaustive(w, "map@http", l, 1, 0)
+		}
+		httpExhaustive(w, "lru1+q@http", 3, 1, 0)
+		if *tier == "thorough" {
+			httpExhaustive(w, "map@http", 4, 1, 0)
+			httpExhaustive(w, "lru1+q@http", 4, 1, 0)
+		} else {
+			httpExhaustive(w, "map+q@http", 4, 8, *seed)
+		}
+		k := *n
+		if k == 0 {
+			k = 1500
+			if *tier == "thorough" {
+				k = 20000
+			}
+		}
+		httpRandom(w, r.Fork(), k)
 	case "all":
-		if err := runDirected(w); err != nil {
+		err := runDirected(w)
+		if err == nil {
+			err = runCorpus(w, *corpus, false)
+		}
+		if err == nil {
+			err = runWeak(w, []string{"map", "lru2", "lru4", "lru2+q"})
+		}
+		if err != nil {
 			w.Flush()
 			fmt.Fprintln(os.Stderr, err)
 			os.Exit(2)
@@ -730,7 +1086,7 @@ func main() {
 		}
 		random(w, r, k)
 		for l := 0; l <= 3; l++ {
-			for _, c := range []string{"map", "lru1", "lru2", "lru3", "no"} {
+			for _, c := range []string{"map", "lru1", "lru2", "lru3", "no", "map+q"} {
 				exhaustive(w, c, l, nil)
 			}
 		}
